@@ -271,11 +271,10 @@ theorem opAt_mirror (L : JLaws F) (g : Nat → F) (dt : F) (S : Nat) (hS : 1 ≤
     · subst k0
       have a2 : ¬ (2 * S - 0 = 0) := by omega
       have a3 : 2 * S - 0 = 2 * S := by omega
-      simp only [a3, if_true]
-      split <;> rfl
       have := hm 0 (by omega)
       simp only [Nat.sub_zero] at this
-      rw [this]
+      simp only [a3, if_true, this]
+      split <;> rfl
     · by_cases kS : k = 2 * S
       · subst kS
         have a1 : 2 * S - 2 * S = 0 := by omega
